@@ -557,6 +557,7 @@ BINDING = {
                                        ("Peg", lambda e: e.get("res") == "ok" and e["cfg"]["wc"] >= 2 and e["cfg"]["nr"] > 3, ["cols", 2], lambda c: [c[0]] * len(c), "a PEG column with a repeated check")]),
     "C17": ("Trace_C17", "Trace.cfg", [("Op", lambda e: e["o"] == "ok" and len(e["obs"]["rw"]) > 0, ["obs", "rw", 0], lambda x: x + 1, "row weight off by one")]),
     "C18": ("Trace_C18", "Trace.cfg", [("Name", lambda e: True, ["show"], lambda x: x + "x", "Display string differs"),
+                                       ("NonMember", lambda e: e["str"] == "phif64", ["cli"], lambda x: "Phif64", "the command line folds case"),
                                        ("Table", lambda e: True, ["behave", 3, "fp"], lambda x: x[::-1], "a factory decoder behaves differently")]),
     "C19": ("Trace_C19", "Trace.cfg", [("Decode", lambda e: e["o"] == "ok" and e["ref"]["verdict"] == "ok", ["ret"], lambda x: -1, "success reported as failure"),
                                        ("Ctor", lambda e: e["o"] == "ok" and e["why"] == "pattern", ["null"], lambda x: False, "malformed pattern accepted")]),
